@@ -26,5 +26,7 @@ func GenCfg(t *rapid.T) Cfg {
 	if c.Restore && !c.Bisync {
 		c.BadFormatEvery = rapid.SampledFrom([]int{0, 0, 0, 0, 1, 2, 3}).Draw(t, "badFormatEvery")
 	}
+	// replay.replaceHashTag: keys lose their first '{' and first '}' on the way
+	c.ReplaceHashTag = rapid.IntRange(0, 4).Draw(t, "replaceHashTag") == 0
 	return c
 }
